@@ -157,14 +157,13 @@ def run_check(prop, tier, seed, runs=None, workers=None, wall_cap=None):
         n_viol += len(mismatches)
         path = os.path.join(REPLAY_DIR, "%s-hashseed-%d.json" % (prop, seed))
         os.makedirs(os.path.dirname(path), exist_ok=True)
+        payload = hashseed_replay(prop, seed, tier, mismatches[0], findings)
+        payload["runs_with_different_logs"] = mismatches
         with open(path, "w") as handle:
-            json.dump({"property": prop, "class": prop + ".hash-seed", "verif_seed": seed, "runs": mismatches,
-                       "hash_seeds": procs.HASH_SEEDS[:2],
-                       "how": "run these run indices with `check.py %s --runs %d` under both hash seeds; event-log digests differ" % (prop, max(mismatches) + 1)},
-                      handle, indent=1)
+            json.dump(payload, handle, indent=1, sort_keys=True)
         violation_lines.append("VIOLATION property=%s replay=%s" % (prop, path))
-        print("  class=%s.hash-seed: %d of %d runs gave different event logs under PYTHONHASHSEED %s and %s (runs %r)"
-              % (prop, len(mismatches), pairs_compared, procs.HASH_SEEDS[0], procs.HASH_SEEDS[1], mismatches[:10]), flush=True)
+        print("  class=%s.hash-seed: %d of %d runs gave different event logs under PYTHONHASHSEED %s and %s (runs %r); replay minimised in %d steps"
+              % (prop, len(mismatches), pairs_compared, procs.HASH_SEEDS[0], procs.HASH_SEEDS[1], mismatches[:10], payload.get("minimise_steps", 0)), flush=True)
 
     enum = None
     if prop in ("C12", "C17") and not runs:
@@ -275,6 +274,49 @@ def run_enum(prop, tier, seed, workers, deadline, findings):
     return out
 
 
+def _digests_under(prop, scenario, hash_seeds, findings):
+    tasks = [{"prop": prop, "mode": "replay", "scenario": scenario, "hash_seed": hs, "known": findings} for hs in hash_seeds]
+    results, errors = procs.run_tasks(tasks, n_workers=len(tasks))
+    if errors or any(r is None or r.get("harness_error") for r in results):
+        return None
+    return [(r.get("status"), r.get("digest")) for r in results]
+
+
+def hashseed_replay(prop, seed, tier, run_index, findings, budget_s=90.0):
+    """Replay file for a cross-interpreter difference: the scenario, minimised while the
+    event-log digests under the two hash seeds still differ."""
+    from sim.registry import engine
+    hash_seeds = procs.HASH_SEEDS[:2]
+    task = {"prop": prop, "mode": "run", "seed": seed, "run": run_index, "tier": tier, "minimise": False,
+            "return_scenario": True, "hash_seed": hash_seeds[0], "known": findings}
+    results, errors = procs.run_tasks([task], n_workers=1)
+    payload = {"property": prop, "class": prop + ".hash-seed", "verif_seed": seed, "run_index": run_index,
+               "hash_seeds": hash_seeds, "minimise_steps": 0}
+    if errors or not results[0] or "scenario" not in results[0]:
+        payload["how"] = "run index %d of `check.py %s` under both hash seeds" % (run_index, prop)
+        return payload
+    scenario = results[0]["scenario"]
+    mod = engine(prop)
+    start = time.time()
+    steps = 0
+    improved = True
+    while improved and time.time() - start < budget_s:
+        improved = False
+        for cand in mod.shrink_candidates(scenario):
+            if time.time() - start > budget_s:
+                break
+            steps += 1
+            digs = _digests_under(prop, cand, hash_seeds, findings)
+            if digs and digs[0][0] == digs[1][0] == "ok" and digs[0][1] != digs[1][1]:
+                scenario = cand
+                improved = True
+                break
+    payload["scenario"] = scenario
+    payload["minimise_steps"] = steps
+    payload["run_seed"] = scenario.get("run_seed")
+    return payload
+
+
 def verify_replay(prop, path):
     """Replay the file in a fresh interpreter and confirm the violation class."""
     with open(path) as handle:
@@ -292,8 +334,21 @@ def replay(prop, path):
     with open(path) as handle:
         payload = json.load(handle)
     if "scenario" not in payload:
-        print("replay file has no scenario (hash-seed class): " + payload.get("how", ""))
+        print("replay file has no scenario: " + payload.get("how", ""))
         return 2
+    if payload.get("class", "").endswith(".hash-seed"):
+        findings = [f for f in load_known().get("findings", []) if f.get("property") == prop]
+        digs = _digests_under(prop, payload["scenario"], payload["hash_seeds"], findings)
+        if digs is None:
+            print("HARNESS-ERROR replay under two hash seeds failed")
+            return 2
+        print("REPLAY property=%s class=%s digests under PYTHONHASHSEED %s: %s" % (prop, payload["class"], payload["hash_seeds"], digs))
+        if digs[0] != digs[1]:
+            print("VIOLATION property=%s replay=%s" % (prop, path))
+            print("  reproduced class %s: True" % payload["class"])
+            return 1
+        print("replay did not violate the property on this tree")
+        return 0
     findings = [f for f in load_known().get("findings", []) if f.get("property") == prop]
     task = {"prop": prop, "mode": "replay", "scenario": payload["scenario"], "hash_seed": payload.get("hash_seed"), "known": findings}
     results, errors = procs.run_tasks([task], n_workers=1)
